@@ -10,13 +10,13 @@ CORE_NOTE = ('Trusted: TLC/SANY, PyCdlibModel.tla + NameRules.tla + Trace_Model.
              '0/1/2/2048/2049/4096 bytes and one virtual content of 4 GiB + 6 KiB, 12 configurations (pairwise cover), '
              'behaviours <= 4-6 calls (tours, focused alphabets), 8-14 (simulation), lifecycle compositions A;close;B. '
              'The corpus also holds the traces recorded from the repository\'s own integration tests (harness/pytest_record.py, '
-             'lazy and always-consistent pass). The binding self-test (harness/selftest_core.py: 40 corrupted traces must be '
+             'lazy and always-consistent pass). The binding self-test (harness/selftest_core.py: 51 corrupted traces must be '
              'rejected) runs with C01. After a step matching a listed known finding the rest of that behaviour is not judged.')
 IMG_NOTE = CORE_NOTE + ' Plus the independent decoders under harness/decoders (written from the standards, no pycdlib import) and ImageChecks.tla/Volume.tla.'
 
 CHECKS = {
  'C01': ('model_checking', 'explicit TLA+ model (PyCdlibModel) + TLC-generated behaviours replayed on pycdlib + TLC trace validation',
-         'TLC enumerates behaviours of the abstract API model (transition tour per configuration, random deep behaviours); each is replayed on the real PyCdlib, the image is written, reopened in a fresh object and projected; TLC (Trace_Model) judges every step and the final view against the model state in every namespace (paths, kinds, hidden flags, symlink targets, content ids), and that write/open succeed. Exhaustive over the bounded transition graph, sampled beyond.', '4 C01', CORE_NOTE),
+         'TLC enumerates behaviours of the abstract API model (transition tour per configuration, random deep behaviours); each is replayed on the real PyCdlib, the image is written, reopened in a fresh object and projected; TLC (Trace_Model) judges every step and the final view against the model state in every namespace (paths, kinds, hidden flags, symlink targets, content ids; what walk() lists and what full_path_from_dirrecord(get_record(p)) answers against WalkOf/SameObject of the model), and that write/open succeed. Exhaustive over the bounded transition graph, sampled beyond.', '4 C01', CORE_NOTE),
  'C02': ('model_checking', 'same model with Reopen (write/close/open_fp) generations; TLC trace validation',
          'Same corpus restricted to behaviours with one or more Reopen steps (up to 2-3 generations): edits act on parsed state; TLC judges every later step and the final image against the model, including the frame (nothing but the addressed entry changes) because the whole projected state is compared after each call.', '4 C02', CORE_NOTE),
  'C03': ('model_checking', 'independent ECMA-119 decoder + Volume.tla clauses evaluated by TLC on images of model behaviours',
@@ -34,12 +34,12 @@ CHECKS = {
  'C13': ('model_checking', 'NameRules.tla legality + duplicate/illegal/too-deep refusals of the model, trace validation; name probes judged by TLC',
          'The model refuses duplicate, illegal and too deep names in every namespace; for every such refusal the real call must raise PyCdlibInvalidInput at the edit and change nothing; every projection must have unique names; accepted histories must master. Character-class name probes (Mangle.tla / C18 machinery) add the input-space side.', '4 C13', CORE_NOTE),
  'C14': ('model_checking', 'TLC enumerates one refused call per (action, reason) at every state of the bounded graph; differential replay judged by TLC',
-         'Every refusal reason of every mutator of the model (bad/duplicate name in first, second or third namespace, missing parent, wrong kind, not empty, no such namespace, wrong state) is placed at every state of the tour and in random behaviours; TLC judges that the projection is unchanged, that later steps conform, that write succeeds and that the bytes equal the run without the refused call.', '4 C14', CORE_NOTE),
+         'Every refusal reason of every mutator of the model (bad/duplicate name in first, second or third namespace, missing parent, wrong kind, not empty, the root of a namespace, no such namespace, wrong state, a configuration new() does not know - also after close() and before the real new()) is placed at every state of the tour and in random behaviours; TLC judges that the projection is unchanged, that later steps conform, that write succeeds and that the bytes equal the run without the refused call.', '4 C14', CORE_NOTE),
  'C17': ('model_checking', 'ModifyInPlace action of the TLA+ model; TLC-generated behaviours (reopen, modify, repeat; DirPack boundary directories); byte classification of the backing file and backing-file view judged by TLC',
-         'The model accepts modify_file_in_place iff the target is a file with data whose sector count does not change (and nothing is pending); TLC-generated behaviours are replayed; the bytes of the backing file before/after are classified by the independent decoders (data of the target, directory records pointing at it, its UDF file entries, VD size fields, other) and TLC judges InPlaceTouchesOnly / RefusedInPlaceChangedFile; the backing file itself is opened in a fresh object, decoded independently and judged against the model state and the Volume/Layout clauses.', '4 C17', IMG_NOTE),
+         'The model accepts modify_file_in_place iff the target is a file with data (an El Torito boot file included) whose sector count does not change (and nothing is pending; sizes 0, 1, 2, 2048, 2049, 4096 so that a replacement can end exactly one sector short); TLC-generated behaviours are replayed; the bytes of the backing file before/after are classified by the independent decoders (data of the target, directory records pointing at it, its UDF file entries, VD size fields, other) and TLC judges InPlaceTouchesOnly / RefusedInPlaceChangedFile; the backing file itself is opened in a fresh object, decoded independently and judged against the model state and the Volume/Layout clauses.', '4 C17', IMG_NOTE),
 }
 AGENT = {
- 'C08': ('model_checking', 'SuspPlacement.tla case-space enumeration by TLC -> witnesses replayed on pycdlib -> independent SUSP/RRIP decoder -> Susp.tla clauses judged by TLC', '4 C08'),
+ 'C08': ('model_checking', 'SuspPlacement.tla case-space enumeration by TLC -> witnesses and add/remove/reopen histories replayed on pycdlib -> independent SUSP/RRIP decoder -> Susp.tla clauses judged by TLC', '4 C08'),
  'C10': ('model_checking', 'MC_udf.tla behaviours replayed on pycdlib -> independent ECMA-167 decoder -> UdfVolume.tla clauses judged by TLC', '4 C10'),
  'C11': ('model_checking', 'MC_boot.tla behaviours replayed on pycdlib -> independent El Torito decoder -> Boot.tla clauses judged by TLC', '4 C11'),
  'C12': ('model_checking', 'MC_boot.tla behaviours + geometry grid -> independent MBR/GPT/APM decoder -> Boot.tla clauses judged by TLC', '4 C12'),
